@@ -40,7 +40,11 @@ PHI = [0.4, 1.1, 2.5, -0.7, 0.0]
 LOSS = [0.2, 0.5, 0.1]
 SRC_OK = {0: [1, 0.9, 0.5], 1: [1, 0.95, 0.8], 2: [1, 0.9, 0.6], 3: [0, 0.001, 0.05]}
 SRC_BAD = {0: [1.5, -0.1], 1: [0.5, 0.4, 1.2], 2: [1.01], 3: [-0.5, 2]}
-DETS = [[1, True], [1, False], [0.8, True], [0.7, False]]
+DETS = [[1, True], [1, False], [0.8, True], [0.7, False], [0.9, True, 0.2], [1, False, 0.1]]     # [efficiency, photon_counting(, p_dark)]
+
+
+def mk_det(d):
+    return em.Detector(efficiency=d[0], photon_counting=d[1], p_dark=(d[2] if len(d) > 2 else 0))
 
 
 def ename(e):
@@ -218,7 +222,7 @@ class SamplerRun:
         return (u, hin, hout, tuple(st["input"]), bk) + tuple(sc6(x) for x in st["src"]), m
 
     def det_id(self, det):
-        t = (float(det[0]), bool(det[1]))
+        t = (float(det[0]), bool(det[1]), float(det[2]) if len(det) > 2 else 0.0)
         for i, d in self.dets.items():
             if d == t:
                 return i
@@ -256,7 +260,7 @@ class SamplerRun:
         return em.Sampler(c, lw.State(list(st["input"])),
                           source=em.Source(brightness=st["src"][0], purity=st["src"][1],
                                            indistinguishability=st["src"][2], probability_threshold=st["src"][3]),
-                          detector=em.Detector(efficiency=d[0], photon_counting=d[1]),
+                          detector=mk_det(d),
                           backend=st["backend"])
 
     @staticmethod
@@ -291,14 +295,29 @@ class SamplerRun:
             return list(o.sample())
         return self._fresh(("sample", det, seed), key, f, self.dets.get(det))
 
-    def fresh_sample_n(self, key, det, which, n, seed):
+    @staticmethod
+    def call_kw(step):
+        """per-call arguments of Sampler.sample_N_*: post-selection (a new object per call) and min_detection"""
+        kw = {}
+        if step.get("ps") is not None:
+            kw["post_select"] = make_ps(step["ps"])
+        if step.get("mind"):
+            kw["min_detection"] = step["mind"]
+        return kw
+
+    def fresh_sample_n(self, key, det, step):
+        which, n, seed = step.get("which", "outputs"), step["N"], step["seed"]
+
         def f(o):
-            if self.quick or which == "outputs":
+            if self.quick:
                 r = o.sample_N_outputs(n, seed=seed)
+            elif which == "outputs":
+                r = o.sample_N_outputs(n, seed=seed, **self.call_kw(step))
             else:
-                r = o.sample_N_inputs(n, seed=seed)
+                r = o.sample_N_inputs(n, seed=seed, **self.call_kw(step))
             return sorted([list(s), int(c)] for s, c in r.items())
-        return self._fresh(("sample_n", det, which, n, seed), key, f, self.dets.get(det))
+        return self._fresh(("sample_n", det, which, n, seed, json.dumps([step.get("ps"), step.get("mind")])), key, f,
+                           self.dets.get(det))
 
     # ------------------------------------------------------------- the history
     def run(self):
@@ -321,7 +340,7 @@ class SamplerRun:
             obj = em.Sampler(self.live_circ[init["c"]], lw.State(list(init["input"])),
                              source=em.Source(brightness=s[0], purity=s[1], indistinguishability=s[2],
                                               probability_threshold=s[3]),
-                             detector=em.Detector(efficiency=init["det"][0], photon_counting=init["det"][1]),
+                             detector=mk_det(init["det"]),
                              backend=init["backend"])
         self.obj = obj
         st0 = self.settings()
@@ -396,12 +415,13 @@ class SamplerRun:
             v = list(step["v"])
             did = self.det_id(v)
             if step["how"] == "new":
-                self.reconf(lambda: setattr(o, "detector", em.Detector(efficiency=v[0], photon_counting=v[1])),
+                self.reconf(lambda: setattr(o, "detector", mk_det(v)),
                             f"(SSetDetector {did}%N)", lambda: cur.update(det=v))
             else:
                 def f():
                     o.detector.efficiency = v[0]
                     o.detector.photon_counting = v[1]
+                    o.detector.p_dark = v[2] if len(v) > 2 else 0
                 self.reconf(f, f"(SSetDetector {did}%N)", lambda: cur.update(det=v))
         elif op == "pc":
             b = bool(step["v"])
@@ -425,6 +445,49 @@ class SamplerRun:
             self.psobjs[i].add(tuple(modes), tuple(phot))
             self.psdescs[i] = {"rules": list((self.psdescs[i] or {"rules": []})["rules"]) + [[list(modes), list(phot)]]}
             self._silent(f"(QSetPostSelect {i}%N {w.vid(ps_value(self.psdescs[i]))}%N)")
+        elif op == "decoy":
+            # other objects come and go: one default-constructed on the same live circuit whose own defaults are then
+            # changed, one that SHARES the live object's source / detector / backend / post-selection objects and is
+            # read, sampled and re-pointed; nothing of this is a setting of the long-lived object
+            def quiet(fn):
+                try:
+                    fn()
+                except Exception:  # noqa: BLE001
+                    pass
+            circ, st = self.live_circ[cur["c"]], lw.State(list(cur["input"]))
+            if q:
+                def d1():
+                    d = em.QuickSampler(circ, st)
+                    d.probability_distribution  # noqa: B018
+                    d.photon_counting = False
+                    if hasattr(d.post_select, "add"):
+                        d.post_select.add(0, 5)
+                def d2():
+                    d = em.QuickSampler(circ, st, photon_counting=o.photon_counting, post_select=o.post_select)
+                    d.probability_distribution  # noqa: B018
+                    d.sample_N_outputs(3, seed=1)
+                    d.photon_counting = not o.photon_counting
+                    d.circuit = self.live_circ[(cur["c"] + 1) % len(self.live_circ)]
+            else:
+                def d1():
+                    d = em.Sampler(circ, st)
+                    d.probability_distribution  # noqa: B018
+                    d.source.brightness = 0.5
+                    d.source.purity = 0.9
+                    d.detector.efficiency = 0.5
+                    d.detector.photon_counting = False
+                    d.backend.backend = "slos"
+                def d2():
+                    d = em.Sampler(circ, st, source=o.source, detector=o.detector, backend=o.backend)
+                    d.probability_distribution  # noqa: B018
+                    d.sample_N_outputs(3, seed=1)
+                    d.sample()
+                    d.circuit = self.live_circ[(cur["c"] + 1) % len(self.live_circ)]
+            rs = pyrandom.getstate()
+            quiet(d1)
+            quiet(d2)
+            pyrandom.setstate(rs)
+            self._silent(f"({C}SetCircuit {self.circ_term(w.specs[cur['c']])})")
         elif op in ("read", "cont"):
             try:
                 d = o.probability_distribution if op == "read" else o.continuous_distribution
@@ -447,10 +510,12 @@ class SamplerRun:
             self._noobj(f"({C}Sample {cz(step['seed'])})")
         elif op == "sample_n":
             try:
-                if q or step["which"] == "outputs":
+                if q:
                     r = o.sample_N_outputs(step["N"], seed=step["seed"])
+                elif step["which"] == "outputs":
+                    r = o.sample_N_outputs(step["N"], seed=step["seed"], **self.call_kw(step))
                 else:
-                    r = o.sample_N_inputs(step["N"], seed=step["seed"])
+                    r = o.sample_N_inputs(step["N"], seed=step["seed"], **self.call_kw(step))
                 self.obs.append({"ok": sorted([list(s), int(c)] for s, c in r.items())})
             except Exception as e:  # noqa: BLE001
                 self.obs.append({"err": ename(e)})
@@ -522,7 +587,7 @@ class SamplerRun:
                 if step["op"] == "sample":
                     out.append(self.fresh_sample(key, det, step["seed"]))
                 else:
-                    out.append(self.fresh_sample_n(key, det, step.get("which", "outputs"), step["N"], step["seed"]))
+                    out.append(self.fresh_sample_n(key, det, step))
         return out
 
     def key_from_sx(self, k):
@@ -547,7 +612,7 @@ class SamplerRun:
             elif op == "sample":
                 ref = self.fresh_sample(key, det, step["seed"])
             else:
-                ref = self.fresh_sample_n(key, det, step.get("which", "outputs"), step["N"], step["seed"])
+                ref = self.fresh_sample_n(key, det, step)
             got = ob
             if "ok" in got and isinstance(got["ok"], dict):
                 got = {"ok": got["ok"]["dist"]}
@@ -590,10 +655,14 @@ class AnalyzerRun:
 
     def key_of(self, st):
         c = build_circuit(st["spec"], st["params"])
+        return (self.w.uid(c), self.her_key(c), int(c.input_modes), self.w.vid(ps_value(st["psd"])))
+
+    @staticmethod
+    def her_key(c):
+        """both herald dictionaries as ONE list of pairs (the model only compares it): output modes shifted by 100"""
         h = c.heralds
-        assert h["input"] == h["output"]
-        hin = tuple(sorted((int(k), int(v)) for k, v in h["input"].items()))
-        return (self.w.uid(c), hin, int(c.input_modes), self.w.vid(ps_value(st["psd"])))
+        return (tuple(sorted((int(k), int(v)) for k, v in h["input"].items()))
+                + tuple(sorted((100 + int(k), int(v)) for k, v in h["output"].items())))
 
     def register(self):
         st = self.settings()
@@ -648,9 +717,7 @@ class AnalyzerRun:
 
     def circ_term(self, spec):
         c = build_circuit(spec, self.w.params)
-        h = c.heralds
-        hin = tuple(sorted((int(k), int(v)) for k, v in h["input"].items()))
-        return f"{self.w.uid(c)}%N {her_term(hin)} {cn(c.input_modes)}"
+        return f"{self.w.uid(c)}%N {her_term(self.her_key(c))} {cn(c.input_modes)}"
 
     def run(self):
         case, w = self.case, self.w
@@ -683,6 +750,17 @@ class AnalyzerRun:
             elif op == "ps":
                 a.post_selection = make_ps(step["ps"])
                 cur["ps"] = copy.deepcopy(step["ps"])
+                self.msteps.append(f"(ANSetPs {w.vid(ps_value(cur['ps']))}%N)")
+                self.obs.append(dict(res={"ok": []}, **self.attrs()))
+            elif op == "ps_add":
+                # a rule added IN PLACE to the PostSelection object the Analyzer holds (no setter is involved)
+                modes, phot = step["rule"]
+                if isinstance(cur["ps"], dict) and "rules" in cur["ps"]:      # (a shrunk history may have lost the object)
+                    try:
+                        a.post_selection.add(tuple(modes), tuple(phot))
+                        cur["ps"] = {"rules": list(cur["ps"]["rules"]) + [[list(modes), list(phot)]]}
+                    except ValueError:       # the mode already has a rule (only in a shrunk history): nothing changes
+                        pass
                 self.msteps.append(f"(ANSetPs {w.vid(ps_value(cur['ps']))}%N)")
                 self.obs.append(dict(res={"ok": []}, **self.attrs()))
             elif op == "analyze":
@@ -841,13 +919,15 @@ def gen_pool(rng, lossy, max_modes):
     nh = min(nh, n - 1)
     hm = sorted(rng.sample(range(n), nh))
     her = [[m, rng.choice([0, 1])] for m in hm]
+    if len(her) == 1 and rng.random() < 0.25:
+        her[0][1] = 2                              # a herald with two photons (threshold detection must refuse it)
     c0 = gen_spec(rng, n, lossy, pnames, her)
     pool = [c0]
     if her:
         twin = copy.deepcopy(c0)
         j = rng.randrange(len(her))
         hs = [o for o in twin["ops"] if o[0] == "her"]
-        hs[j][2] = 1 - hs[j][2]
+        hs[j][2] = {0: 1, 1: 0, 2: 1}[hs[j][2]]
         pool.append(twin)
         free_out = [mm for mm in range(n) if mm not in hm]
         if free_out:
@@ -912,8 +992,13 @@ def gen_sampler_case(rng, quick, tier):
             return {"op": "cont"}
         if u < 0.82:
             return {"op": "sample", "seed": rng.randint(0, 10**6)}
-        return {"op": "sample_n", "which": rng.choice(["outputs", "inputs"]), "N": rng.randint(5, 40),
-                "seed": rng.randint(0, 10**6)}
+        st = {"op": "sample_n", "which": rng.choice(["outputs", "inputs"]), "N": rng.randint(5, 40),
+              "seed": rng.choice([0, rng.randint(0, 10**6), rng.randint(0, 10**6)])}
+        if not quick and rng.random() < 0.5:
+            # post-selection and min_detection are per-call arguments of the Sampler: they change from call to call
+            st["ps"] = gen_ps(rng, m)
+            st["mind"] = rng.choice([0, 0, 1, 1, 2])
+        return st
 
     if rng.random() < 0.45:
         steps.append(observe())
@@ -928,8 +1013,10 @@ def gen_sampler_case(rng, quick, tier):
                 # a reconfiguration that changes nothing: same circuit object again, an equal input,
                 # an equal new Source / Backend object, the same flag
                 v = rng.random()
-                if v < 0.35:
+                if v < 0.25:
                     steps.append({"op": "circuit", "c": cur})
+                elif v < 0.45:
+                    steps.append({"op": "decoy"})
                 elif v < 0.6 and not pending_input and len(cur_input) == m:
                     steps.append({"op": "input", "s": list(cur_input)})
                 elif quick:
@@ -1074,8 +1161,12 @@ def gen_toggle_case(rng, quick):
             return {"op": "cont"}
         if u < 0.8:
             return {"op": "sample", "seed": rng.randint(0, 10**6)}
-        return {"op": "sample_n", "which": rng.choice(["outputs", "inputs"]), "N": rng.randint(10, 40),
-                "seed": rng.randint(0, 10**6)}
+        st = {"op": "sample_n", "which": rng.choice(["outputs", "inputs"]), "N": rng.randint(10, 40),
+              "seed": rng.randint(0, 10**6)}
+        if not quick and rng.random() < 0.4:
+            st["ps"] = gen_ps(rng, 3)
+            st["mind"] = rng.choice([0, 1, 2])
+        return st
 
     if quick:
         ps0 = rng.choice([None, {"rules": []}, {"rules": [[[0], [0, 1]]]}])
@@ -1132,9 +1223,36 @@ def gen_toggle_case(rng, quick):
         nd = list(rng.choice([d for d in DETS if d != init["det"]]))
         how = "new" if f == "det" else "attr"
         there, back = [{"op": "detector", "how": how, "v": nd}], [{"op": "detector", "how": how, "v": list(init["det"])}]
-    steps = ([observe()] if rng.random() < 0.8 else []) + there + [observe(), observe()] + back + [observe()]
+    steps = (([observe()] if rng.random() < 0.8 else []) + there + [observe()] + ([{"op": "decoy"}] if rng.random() < 0.3 else [])
+             + [observe()] + back + [observe()])
     return dict(kind="quick" if quick else "sampler", params=params, circuits=[spec, twin, other], init=init,
                 steps=steps)
+
+
+def gen_detector_case(rng):
+    """a Sampler whose detector is re-configured (in place or replaced) between sampling calls: every pair of
+    detector settings - ideal, lossy, threshold, with dark counts - occurs in both orders, sampled before and after"""
+    n = rng.randint(2, 3)
+    spec = {"n": n, "base": rng.choice([None, rng.randint(0, 40)]), "ops": [["bs", 0, rng.choice(REFL)]] + ([["bs", 1, rng.choice(REFL)]] if n == 3 else [])}
+    inp = rng.choice([[1, 1, 0], [2, 0, 0], [1, 0, 1]])[:n] if n == 3 else rng.choice([[1, 1], [2, 0], [1, 0]])
+    init = dict(c=0, input=inp, src=[1, 1, 1, 0], backend="permanent", det=list(rng.choice(DETS)))
+
+    def smp():
+        u = rng.random()
+        if u < 0.45:
+            return {"op": "sample", "seed": rng.randint(0, 10**6)}
+        st = {"op": "sample_n", "which": "inputs" if u < 0.85 else "outputs", "N": rng.randint(10, 30), "seed": rng.randint(0, 10**6)}
+        if rng.random() < 0.3:
+            st["mind"] = rng.choice([1, 2])
+        return st
+
+    steps = [smp()] if rng.random() < 0.8 else []
+    for _ in range(rng.randint(2, 4)):
+        steps.append({"op": "detector", "how": rng.choice(["attr", "attr", "new"]), "v": list(rng.choice(DETS))})
+        steps.append(smp())
+        if rng.random() < 0.4:
+            steps.append(smp())
+    return dict(kind="sampler", params={"r0": 0.5, "t0": 0.4}, circuits=[spec], init=init, steps=steps)
 
 
 def gen_analyzer_case(rng, tier):
@@ -1145,6 +1263,14 @@ def gen_analyzer_case(rng, tier):
             gen_spec(rng, n, lossy, pnames, [])]
     if n == 3 and rng.random() < 0.5:
         pool.append(gen_spec(rng, 4, lossy, pnames, [[rng.randrange(4), 0]]))   # herald without photons
+    if rng.random() < 0.5:
+        # a herald that carries a photon, and a twin whose herald leaves on another output mode
+        hm = rng.randrange(n + 1)
+        hspec = gen_spec(rng, n + 1, lossy, pnames, [[hm, rng.choice([1, 1, 0])]])
+        pool.append(hspec)
+        tw = copy.deepcopy(hspec)
+        tw["ops"][-1][1] = [hm, rng.choice([x for x in range(n + 1) if x != hm])]
+        pool.append(tw)
     params = {"r0": rng.choice(REFL), "t0": rng.choice(PHI)}
     nph = rng.choice([1, 1, 2])
     basis = [s for s in _fock(n, nph)]
@@ -1160,23 +1286,50 @@ def gen_analyzer_case(rng, tier):
     steps = []
     specs = copy.deepcopy(pool)
     cur = 0
+    ps_cur = None
+
+    def analyze():
+        return {"op": "analyze", "i": rng.randrange(len(inputs)),
+                "x": rng.randrange(len(expected)) if rng.random() < 0.45 else None}
+
     for _ in range(rng.randint(4, 12 if tier == "quick" else 20)):
         u = rng.random()
         if u < 0.5:
-            steps.append({"op": "analyze", "i": rng.randrange(len(inputs)),
-                          "x": rng.randrange(len(expected)) if rng.random() < 0.45 else None})
+            steps.append(analyze())
         elif u < 0.65:
             cur = rng.randrange(len(pool))
             steps.append({"op": "circuit", "c": cur})
         elif u < 0.77:
             comp = gen_comp(rng, specs[cur]["n"], lossy, pnames)
+            inplace = False
+            if not any(o[0] == "loss" for o in specs[cur]["ops"]) and rng.random() < 0.5:
+                # the first loss element of the attached circuit, added in place: outputs with fewer photons
+                # become possible although no setter of the Analyzer was used; analysed before and after
+                comp = ["loss", rng.randrange(in_modes(specs[cur])) if in_modes(specs[cur]) == specs[cur]["n"] else 0, rng.choice(LOSS)]
+                inplace = True
+                i = rng.randrange(len(inputs))
+                steps.append({"op": "analyze", "i": i, "x": None})
             specs[cur]["ops"].append(comp)
             steps.append({"op": "append", "comp": comp})
+            if inplace:
+                steps.append({"op": "analyze", "i": i, "x": None})
         elif u < 0.87:
             name = rng.choice(pnames)
             steps.append({"op": "param", "name": name, "value": rng.choice(REFL if name == "r0" else PHI)})
+        elif u < 0.94 and isinstance(ps_cur, dict) and "rules" in ps_cur:
+            used = {x for r in ps_cur["rules"] for x in r[0]}
+            free = [x for x in range(n) if x not in used]
+            if free:
+                # a rule added in place to the attached PostSelection object, analysed before and after
+                rule = [[rng.choice(free)], [rng.choice([0, 1])]]
+                i = rng.randrange(len(inputs))
+                steps.append({"op": "analyze", "i": i, "x": None})
+                ps_cur["rules"].append(copy.deepcopy(rule))
+                steps.append({"op": "ps_add", "rule": rule})
+                steps.append({"op": "analyze", "i": i, "x": None})
         else:
-            steps.append({"op": "ps", "ps": gen_ps(rng, n) if rng.random() < 0.8 else None})
+            ps_cur = gen_ps(rng, n) if rng.random() < 0.8 else None
+            steps.append({"op": "ps", "ps": copy.deepcopy(ps_cur)})
     return dict(kind="analyzer", params=params, circuits=pool, init=dict(c=0, ps=None), inputs=inputs,
                 expected=expected, steps=steps)
 
@@ -1197,9 +1350,12 @@ class C11:
             "2-4 mode circuits (bs/ps/loss, Parameter-driven values, heralds with 0/1 photons, random unitaries): "
             "circuit reassignment incl. a twin with identical U_full and different herald photons, in-place "
             "component appends, Parameter.set, input, source (new object / attribute), backend (new / in place), "
-            "detector, post-selection (new object, re-attached object, rule added in place), photon_counting, "
+            "detector, post-selection (new object, re-attached object, rule added in place - also to the Analyzer's object; a first loss "
+            "element added in place to the Analyzer's circuit), photon_counting, "
             "rejected setters; reads of both distributions, sample() and sample_N_* with seeds, analyze with and "
-            "without `expected`. Non-trivial = an accepted reconfiguration is followed by a successful "
+            "without `expected`; per-call post_select / min_detection arguments of Sampler.sample_N_*, detectors with dark counts, "
+            "heralds with two photons, Analyzer circuits whose heralds carry photons or leave on another mode, other objects that share the live "
+            "circuit / source / detector / post-selection objects and are used and discarded in between. Non-trivial = an accepted reconfiguration is followed by a successful "
             "read/sample (analyzer: at least two analyze calls). distinct = distinct canonical JSON")
     TRUSTED = ["abstraction from lightworks objects to model terms (harness/c11.py World): U_full -> identifier by exact "
                "bytes, heralds sorted by mode, source fields x 10^6, post-selection -> (object number, rule-set id); "
@@ -1229,7 +1385,9 @@ class C11:
         cases = []
         for k in range(n):
             r = k % 5
-            if r in (0, 1):
+            if k % 10 == 1:
+                cases.append(gen_detector_case(rng))
+            elif r in (0, 1):
                 cases.append(gen_toggle_case(rng, False) if k % 3 == 0 else gen_sampler_case(rng, False, tier))
             elif r in (2, 3):
                 cases.append(gen_toggle_case(rng, True) if k % 3 == 0 else gen_sampler_case(rng, True, tier))
